@@ -4,7 +4,7 @@
 # made with `rsync -a --exclude .git /verif/ /root/work/w2/`; override with VERIF_COPY) with VERIF_REPO=<worktree>, and
 # reports every check that does not exit 0 (nf = ended in no-failing-input-found).
 wt=$1; pd=$2
-L=${REFAC_LOGDIR:-/root/work}   # where the per-check logs go (override with REFAC_LOGDIR)
+L=${REFAC_LOGDIR:-/root/work}; mkdir -p "$L"   # where the per-check logs go (override with REFAC_LOGDIR)
 cd ${VERIF_COPY:-/root/work/w2}
 export VERIF_REPO=$wt
 for pf in $pd/*.diff; do
